@@ -24,7 +24,9 @@ RULE = ('BAM files produced by the spec-level encoder (Python twin of Coq Model.
         'kinds, l_seq 0..19 odd and even over all 16 codes, qualities 0..93, optional tag bytes, mapped and unmapped; '
         'plain-gzip and BGZF containers with block boundaries inside records; whole read, BamIntervalBuffer, '
         'alignment_to_interval, chunked reads for chunk sizes >= the largest record (incl. exact record multiples, '
-        'stream size -1/0/+1/+2), whole / filtered / reordered / chunk-stream writes re-read.  non-trivial = at least two '
+        'stream size -1/0/+1/+2), whole / filtered / reordered / chunk-stream writes re-read; multi-step: the same entries re-read '
+        'after alignment_to_interval, columns read before a write and all columns of the written object after it in '
+        'random orders, interval call before the write.  non-trivial = at least two '
         'records that differ in name length, CIGAR count or l_seq parity')
 EXHAUSTIVE = {'quick': False, 'thorough': False}
 TIE = 'translator+correspondence'   # translate/gen_c16.py -> Gen/C16.v, Bridge/C16.v, theorem C16_source_tie; plus the
